@@ -194,4 +194,101 @@ theorem rmFinish_cons {s : St} (hc : Consistent s) (pp : Path) (n : Name) {pm no
     cases hs : s.disk with
     | mk up lo => simp [hs] at hup ⊢; simp [Disk.setLayer, hup]
 
+/-- `lookup_node(pp, "")` on a visible directory: loaded, not a whiteout, with real inodes -/
+theorem lookupSelf_ready' (pp : Path) :
+    Triple (fun s => Consistent s ∧ DirAt pp s) (lookupSelf pp)
+      (fun _ s => Consistent s ∧ ∃ pm, s.mem pp = some pm ∧ pm.loaded = true ∧ pm.whiteout = false ∧
+        ∃ r rest, pm.reals = r :: rest) Consistent := by
+  intro s ⟨hc, st, hsp, hd, m, hm⟩
+  have h := lookupSelf_spec s.disk pp s ⟨⟨hc, rfl⟩, m, hm⟩
+  refine ⟨fun a s' hf => ?_, fun e s' hf => (h.2 e s' hf).1.1⟩
+  obtain ⟨⟨hc', hd'⟩, hm', hw', hload⟩ := h.1 a s' hf
+  refine ⟨hc', a, hm', hload st hsp hd, hw', ?_⟩
+  have := specStat_of_mem hc' hm'
+  rw [hd', hsp] at this
+  cases hr : a.reals with
+  | nil => rw [hr] at this; cases this
+  | cons r rest => exact ⟨r, rest, rfl⟩
+
+/-- `do_rm` for a non-directory, after the parent has been looked up -/
+theorem doRm_unlink_tail {s : St} (hc : Consistent s) (pp : Path) (n : Name) {pm : MNode}
+    (hpm : s.mem pp = some pm) (hlo : pm.loaded = true) (hw : pm.whiteout = false)
+    {r : Real} {rest : List Real} (hr : pm.reals = r :: rest) :
+    Outcome ((do
+        let node ← lookupNode pp n
+        if node.whiteout then fail ENOENT else do
+        whenM false (rmDirPrep (n :: pp))
+        copyNodeUp pp
+        let node ← getNode (n :: pp)
+        let pm ← getNode pp
+        let s ← getSt
+        rmFinish pp n false node pm (!(node.upperLayerOnly && !lowerEntryExists s.disk pm n))) s)
+      (fun _ s' => Consistent s') (fun s' => Consistent s') := by
+  have hl := hc.toLocal
+  have hls := lookupSelf_loaded hc hpm hw hlo hr
+  by_cases hn : n ∈ pm.kids
+  · obtain ⟨node, hnode⟩ := hl.kidsMem pp pm n hpm hn
+    have hlk : lookupNode pp n s = .ok node s := by
+      unfold lookupNode
+      rw [bind_ok hls]
+      simp [hn, getNode_ok hnode]
+    rw [bind_ok hlk]
+    by_cases hnw : node.whiteout = true
+    · simp only [hnw, if_true]; exact hc
+    · simp only [Bool.not_eq_true] at hnw
+      simp only [hnw, Bool.false_eq_true, if_false, whenM_false]
+      rw [bind_ok (pure_eval () s)]
+      have hcp := copyNodeUp_spec pp s hc
+      cases hres : copyNodeUp pp s with
+      | err e s' => rw [hres] at hcp; rw [bind_err hres]; exact hcp
+      | ok u s2 =>
+        rw [hres] at hcp
+        rw [bind_ok hres]
+        obtain ⟨pm2, hpm2, hpu2⟩ := hcp.up
+        obtain ⟨pm2', hpm2', hlo2, _⟩ := hcp.keep pp pm hpm
+        rw [hpm2] at hpm2'; cases hpm2'
+        have hq2 : s2.mem (n :: pp) = some node := by
+          rw [hcp.frame _ (by simp [isSuffixOf_cons_self])]; exact hnode
+        rw [bind_ok (getNode_ok hq2), bind_ok (getNode_ok hpm2), bind_ok (getSt_eval s2)]
+        exact rmFinish_cons hcp.cons pp n hpm2 hpu2 (by rw [hlo2]; exact hlo) hq2 hnw
+  · have hlk : lookupNode pp n s = .err ENOENT s := by
+      unfold lookupNode
+      rw [bind_ok hls]
+      simp [hn, fail]
+    rw [bind_err hlk]
+    exact hc
+
+theorem doRm_unlink_cons (pp : Path) (n : Name) :
+    Triple (fun s => Consistent s ∧ DirAt pp s) (doRm pp n false) (fun _ => Consistent) Consistent := by
+  unfold doRm
+  refine Triple.bind (Q := fun _ s => Consistent s ∧ DirAt pp s) ?_ fun up => ?_
+  · intro s hs
+    refine ⟨fun a s' h => ?_, fun e s' h => ?_⟩ <;> cases h
+    exact hs
+  refine Triple.ite' (fun _ => Triple.fail' fun _ h => h.1) fun _ => ?_
+  refine Triple.bind (lookupSelf_ready' pp) fun _ => ?_
+  apply Triple.ofOutcome
+  intro s ⟨hc, pm, hpm, hlo, hw, r, rest, hr⟩
+  exact doRm_unlink_tail hc pp n hpm hlo hw hr
+
+/-- LOOKUP of the last component keeps the parent a visible directory in the forest -/
+theorem doLookup_keepsDir (pp : Path) (n : Name) :
+    Triple (fun s => Consistent s ∧ DirAt pp s) (doLookup pp n) (fun _ s => Consistent s ∧ DirAt pp s) Consistent := by
+  intro s ⟨hc, st, hsp, hd, m, hm⟩
+  have h := doLookup_spec s.disk pp n s ⟨⟨hc, rfl⟩, ⟨m, hm⟩, st, hsp, hd⟩
+  refine ⟨fun a s' hf => ?_, fun e s' hf => (h.2 e s' hf).1.1⟩
+  obtain ⟨⟨hc', hd'⟩, _, c, hcm⟩ := h.1 a s' hf
+  obtain ⟨pm', hpm', _⟩ := hc'.reach n pp c hcm
+  exact ⟨hc', st, by rw [hd']; exact hsp, hd, pm', hpm'⟩
+
+theorem runOp_unlink_cons (p : List Name) :
+    Triple Consistent (runOp (.unlink p)) (fun _ => Consistent) Consistent := by
+  unfold runOp
+  refine Triple.bind (resolveParent_spec p) fun r => ?_
+  obtain ⟨pp, n⟩ := r
+  refine Triple.bind (doLookup_keepsDir pp n) fun st => ?_
+  refine Triple.ite' (fun _ => Triple.fail' fun _ h => h.1) fun _ => ?_
+  refine Triple.bind (doRm_unlink_cons pp n) fun _ => ?_
+  exact Triple.pure' fun _ h => h
+
 end Fbr.Ovl
